@@ -203,9 +203,9 @@ def tx_name(tx, sg, what="name"):
 
 
 class Template:
-    def __init__(self, name, tparams, params, ret, body, alias, tuples, sem, args, stmt=False, needs=(), globals_=()):
+    def __init__(self, name, tparams, params, ret, body, alias, tuples, sem, args, stmt=False, needs=(), globals_=(), callsite=()):
         self.name, self.tparams, self.params, self.ret, self.body = name, tparams, params, ret, body
-        self.alias, self.tuples, self.sem, self.args, self.stmt, self.needs, self.globals = alias, tuples, sem, args, stmt, needs, globals_
+        self.alias, self.tuples, self.sem, self.args, self.stmt, self.needs, self.globals, self.callsite = alias, tuples, sem, args, stmt, needs, globals_, callsite
 
     def fname(self, sg):
         return self.name if sg is None else self.name + "_" + "_".join(sg[t] for t in self.tparams)
@@ -303,14 +303,26 @@ T_("doppelt", ["T"], [("a", "T", False)], "T", ["Gib identi (identi a) zurück."
 T_("plus1", ["T"], [("a", "T", False)], "T", ["Gib a plus 1 zurück."], "pluseins <a>", t_all(["Z", "K"]),
    lambda sg, a: (a + 1, None), lambda sg: [V(sg["T"], 1)])
 T_("mitglobal", ["T"], [("a", "T", False)], "Z", ["Gib basis plus 1 zurück."], "mitglobal <a>", t_all(MAIN8),
-   lambda sg, a: (101, None), lambda sg: [V(sg["T"])], globals_=("Die Zahl basis ist 100.",))
+   lambda sg, a: (101, None), lambda sg: [V(sg["T"])], globals_=("Die Zahl basis ist 100.",), callsite=("Die Zahl basis ist 5.",))
 T_("listeaus", ["T"], [("a", "T", False), ("b", "T", False)], ("L", "T"), ["Gib eine Liste, die aus a, b besteht zurück."], "listeaus <a> und <b>",
    t_all(["Z", "T"]), lambda sg, a, b: ([a, b], None), lambda sg: [V(sg["T"]), V(sg["T"], 2)])
+# the body names a type of the declaring module; importing modules declare a DIFFERENT type of the same name
+SOME = ["Z", "T", "LZ", "ZP"]
+T_("typkombi", ["T"], [("a", "T", False)], "Z", ["Der Stempel s ist der Standardwert von einem Stempel.", "Gib wert von s zurück."], "typkombi <a>", t_all(SOME),
+   lambda sg, a: (1, None), lambda sg: [V(sg["T"])],
+   globals_=("Wir nennen die Kombination aus\n\tder Zahl wert mit Standardwert 1,\neinen Stempel.",),
+   callsite=("Wir nennen die Kombination aus\n\tder Zahl wert mit Standardwert 100,\n\tdem Text mehr mit Standardwert \"x\",\neinen Stempel.",))
+T_("typalias", ["T"], [("a", "T", False)], "Z", ["Das Wort w ist \"decl\".", "Gib die Länge von w zurück."], "typalias <a>", t_all(SOME),
+   lambda sg, a: (4, None), lambda sg: [V(sg["T"])],
+   globals_=("Wir nennen einen Text auch ein Wort.",), callsite=("Wir nennen eine Kommazahl auch ein Wort.",))
+T_("typdef", ["T"], [("a", "T", False)], "Z", ["Die Nummer n ist 41 als Nummer.", "Gib (n als Zahl) plus 1 zurück."], "typdef <a>", t_all(SOME),
+   lambda sg, a: (42, None), lambda sg: [V(sg["T"])],
+   globals_=("Wir definieren eine Nummer als eine Zahl.",), callsite=("Wir definieren eine Nummer als einen Text.",))
 T_("lokal", ["T", "R"], [("a", "T", False), ("b", "R", False)], "T", ["Das T x ist a.", "Das R y ist b.", "Das T z ist x.", "Gib z zurück."], "lokal <a> und <b>",
    [dict(T=a, R=b) for a in MAIN8 for b in ("Z", "T", "LT", "ZP")], lambda sg, a, b: (a, None), lambda sg: [V(sg["T"], 1), V(sg["R"])])
 
 
-DIAMOND = ("identi", "doppelt", "mitglobal")     # single-parameter templates also instantiated from two importing modules
+DIAMOND = ("identi", "doppelt", "mitglobal", "typkombi", "typalias", "typdef")     # single-parameter templates also instantiated from two importing modules
 
 
 # ---- model-computed bindings ----------------------------------------------------------------------------------
@@ -391,8 +403,9 @@ def build(t, tuples, sigmas, generic, imported):
                 if key not in seen:
                     seen.add(key)
                     decl_lines.append(o.decl(osg, imported and o is t))
-    if imported and t.globals:
-        prog.lines.append("Die Zahl basis ist 5.")      # a different variable of the same name at the call site
+    if imported:
+        prog.lines += list(t.callsite)                  # different variables / types of the same names at the call site
+        mid_lines += list(t.callsite)
     for want, sg in zip(tuples, sigmas):
         prog.label("#%s %s" % (t.name, " ".join("%s=%s" % (k, want[k]) for k in t.tparams)))
         vals = t.args(want)
@@ -452,7 +465,8 @@ def judge(t, tuples, placement, rg, rs, expect):
     if rg["stage"] != "ok" and rs["stage"] != "ok":
         return ("harness", "neither the generic nor the specialised program compiles (%s): %s" % (where, rs["out"][-300:]))
     if rg["stage"] != "ok":
-        cls = "symbol-multiply-defined" if "symbol multiply defined" in rg["out"] else "link" if rg["stage"] == "link" else "diagnostic"
+        cls = ("symbol-multiply-defined" if "symbol multiply defined" in rg["out"] else "link" if rg["stage"] == "link"
+               else "compiler-crash" if ("Unerwarteter Fehler" in rg["out"] or "ein Bug im DDP-Kompilierer" in rg["out"] or "goroutine" in rg["out"]) else "diagnostic")
         return ("generic-rejected class=%s template=%s placement=%s" % (cls, t.name, placement), "the generic call is rejected (%s) although its specialisation compiles and runs: %s" % (rg["stage"], rg["out"][-400:]))
     if rs["stage"] != "ok":
         return ("specialisation-rejected template=%s placement=%s" % (t.name, placement), "the generic program is accepted although the program with the function specialised by textual replacement is rejected: %s" % rs["out"][-400:])
@@ -479,7 +493,7 @@ def main():
     ck.cov["trusted_base"] = vlib.TRUSTED_COMMON + [
         "proved: the type-level model Types/Generic.v only; the claim about program behaviour rests on the differential leg (real kddp + LLVM + gcc + runtime on both sides)",
         "the specialised program is produced by this check's renderer from the bindings the extracted model computes (German articles / plural forms of the concrete types); guarded: a specialised program that does not compile while the generic one does is reported, and the unchanged tree has none",
-        "Python semantics of the 14 function templates = expected output",
+        "Python semantics of the 17 function templates = expected output",
         "Fields of instantiated generic Kombinationen and Go nil types are outside the model; mutually recursive generic functions cannot be written in DDP (a generic function must be defined immediately) and are not covered",
     ]
     ck.coq()
@@ -601,7 +615,7 @@ def main():
             ck.nontrivial(("neg", desc))
     ck.cov.update(dict(
         templates=len(TEMPLATES), instantiations_per_placement=sum(len(t.tuples) for t in TEMPLATES.values()), program_pairs=len(jobs), instantiations_run=n_inst,
-        placements=["declaring-module", "importing-module", "two-importing-modules (identi, doppelt, mitglobal)"], conflict_calls=len(neg), conflict_calls_rejected=n_rej,
+        placements=["declaring-module", "importing-module", "two-importing-modules (identi, doppelt, mitglobal, typkombi, typalias, typdef)"], conflict_calls=len(neg), conflict_calls_rejected=n_rej,
         typelevel=dict(scenarios=tl["scenarios"], answers=tl["lines"], stats=tl["stats"]),
         exhaustive=False,
         exhaustive_legs=["every template x every applicable tuple over {Zahl, Kommazahl, Text, Buchstabe, Zahlen Liste, Text Liste, Punkt, Zahl-Paar} (two-parameter templates: all 64 / 32 pairs) x both placements",
